@@ -82,7 +82,8 @@ func TestCheck(t *testing.T) {
 	r := kit.Start(t, "C11")
 	defer r.Finish()
 	r.Rule("case = one independent key generation ceremony (engine frost|pedersen|fullrun, n, t, v, repeat) run by the REAL charon code on n nodes with fresh PRNG secp256k1 identities over fakenet; " +
-		"every envelope is held and released by a PRNG scheduler in one of 9 orders (eager random/LIFO, settled batches shuffled/reversed, laggard sender/receiver, strict class/receiver/sender priority), nothing dropped or duplicated; " +
+		"every envelope is held and released by a PRNG scheduler in one of 10 orders (eager random/LIFO, settled batches shuffled/reversed, laggard sender/receiver, strict class/receiver/sender priority, targeted re-delivery), nothing dropped; " +
+		"3/4 of the ceremonies additionally see byte-identical RE-DELIVERIES of one-way reliable-broadcast messages (immediately / after a later-round message of the same sender / late / mixed); the targeted mode keeps laggard C's round-1 broadcast from receiver B until a faster sender A had a later-round message handled by B and A's round-1 broadcast was delivered to B again; " +
 		"non-trivial = the ceremony succeeded on all n nodes and at least one envelope was delivered before an envelope sent earlier; distinct = hash of (engine,n,t,v, sequence of (from,to,message class) deliveries)")
 	r.Assume("herumi (tbls) group arithmetic is correct: the oracle evaluates RecoverPubkey/RecoverSecret/ThresholdAggregate/Verify of the production tbls package on the ceremony outputs (C08 checks tbls itself)")
 	r.Assume("kryptology FROST and drand/kyber pedersen draw their polynomial coefficients from crypto/rand: key material is not replayable from the seed, the schedule mode, identities and configuration are")
@@ -123,6 +124,8 @@ func TestCheck(t *testing.T) {
 	// at least 3/4 of the ceremonies must complete and reach the oracle (the rest can only be
 	// ceremonies discarded for wall-clock timeouts of the real code, see isRealTimeout)
 	r.Require("ceremonies_succeeded", int64(n*3/4))
+	r.Require("redeliveries", int64(n))
+	r.Require("targeted_redelivery_patterns", int64(n/20))
 	reg := &keyRegistry{seen: map[tbls.PublicKey]string{}}
 	par := 6
 	r.Set("grid_size", len(list))
@@ -208,13 +211,31 @@ func runFakenetCeremony(c *kit.Case, cer ceremony, reg *keyRegistry, logs *faken
 	}
 	session := make([]byte, 32)
 	rng.Read(session)
-	mode := rng.Intn(numModes)
+	// Schedule mode: the targeted re-delivery pattern gets a fixed share (it needs a specific
+	// three-party order that the generic modes only hit by chance), the rest is uniform.
+	mode := rng.Intn(numModes - 1)
+	if share := map[string]int{engFrost: 30, engPedersen: 15}[cer.Engine]; rng.Intn(100) < share {
+		mode = modeRedeliverTargeted
+	}
+	// Re-delivery overlay: 1/4 of the ceremonies see every message exactly once.
+	dupProfile := dupNone
+	if rng.Intn(4) != 0 {
+		dupProfile = 1 + rng.Intn(numDupProfiles-1)
+	}
+	// Per-receiver budget: the pedersen board queues node pubkeys in a channel of capacity n that
+	// nobody drains after the collection, so fewer than n repeats per receiver keep its handler
+	// from blocking; FROST filters repeats before queueing.
+	dupBudget := 3 * n
+	if cer.Engine == engPedersen {
+		dupBudget = n - 1
+	}
+	dupAll := os.Getenv("C11_DUP_ALL") != "" // development aid, see report
 	patience := 30 * time.Second
 	if cer.Engine == engPedersen {
 		// board handlers block until the protocol goroutine takes the bundle
 		patience = time.Duration(1+rng.Intn(8)) * time.Millisecond
 	}
-	sc := newSched(m.net, m.ids, r.Rand(c.Idx, 1), mode, patience)
+	sc := newSched(m.net, m.ids, r.Rand(c.Idx, 1), mode, patience, dupProfile, dupBudget, dupAll)
 	logStart := logs.Len()
 
 	ctx, cancel := context.WithCancel(context.Background())
@@ -392,6 +413,17 @@ wait:
 	r.Count("envelopes_delivered", st.Delivered)
 	r.Count("delivery_inversions", int64(st.Inversions))
 	r.Count("envelopes_released_by_hold_time_cap", int64(st.AgedOut))
+	r.Count("redeliveries", int64(st.RedelivTotal))
+	for k, v := range st.Redeliveries {
+		r.Count("redeliveries_"+k, int64(v))
+	}
+	if st.RedelivTotal > 0 {
+		r.Count("ceremonies_with_redelivery", 1)
+	}
+	r.Count("targeted_redelivery_patterns", int64(st.TgtCompleted))
+	r.Count("targeted_redelivery_patterns_"+cer.Engine, int64(st.TgtCompleted))
+	r.Count("targeted_redelivery_abandoned", int64(st.TgtAbandoned))
+	r.Seen("redelivery_profiles", cer.Engine+"/"+st.DupProfile)
 	r.Count("round_overlap_deliveries", int64(st.RoundOverlap))
 	if !delivered {
 		r.Count("ceremonies_succeeded_with_undelivered_envelopes", 1)
